@@ -12,6 +12,10 @@ CLAIMED = {
 CLAIMED['C10'] = dict(design='5 (C10), 2', note='trusted: MIRSE MIR semantics + std models, grapheme model over Sigma_g, is_whitespace table '
     '(validated natively every run); clean pairs are generated as (symbolic non-whitespace content) x (every single-space placement); '
     'bounds in evidence.coverage.bounds; known finding KF-C10-1 region excluded only while its witness reproduces natively')
+CLAIMED['C12'] = dict(design='5 (C12), 2', note='trusted: MIRSE MIR semantics + std models, grapheme model over Sigma_g; oracle = reference '
+    'Levenshtein / OSA dynamic programme evaluated on the same symbolic characters; bounds in evidence.coverage.bounds; known finding '
+    'KF-C12-1 (normalised distance > 1 under spaces_insert_delete_only) excluded only while its witness reproduces; NaN defect repaired '
+    'by fix commit d9c2acd')
 NOT_YET = 'check not built yet in this session (work in progress, see DESIGN.md section 6 for the order)'
 NA = {}
 
